@@ -172,7 +172,8 @@ func (w *rsWorld) stop() {
 					select {
 					case <-s.done:
 					case <-time.After(5 * time.Second):
-						panic("harness: driver did not stop")
+						w.fail("[C06,C05] a syncer's driver did not stop within 5 s of its context being cancelled")
+						panic(stopRun{})
 					}
 				}
 				s.done = nil
@@ -332,7 +333,8 @@ func (w *rsWorld) waitRun(s *rsSub, after int) {
 		}
 		time.Sleep(100 * time.Microsecond)
 	}
-	panic("harness: the driver did not start its downloader")
+	w.fail(fmt.Sprintf("[C06,C05] subscriber %s's driver did not (re)start its downloader within 5 s (after a start or an acknowledged rewind)", s.id))
+	panic(stopRun{})
 }
 
 func (w *rsWorld) name(h common.Hash) string {
@@ -474,7 +476,8 @@ func (w *rsWorld) exec(line string) string {
 			select {
 			case run.permits <- reply:
 			case <-time.After(5 * time.Second):
-				panic("harness: downloader does not take permits")
+				w.fail(fmt.Sprintf("[C06,C05] subscriber %s's downloader run is not taking blocks any more (the driver is not consuming its channel)", s.id))
+				panic(stopRun{})
 			}
 			if !<-reply {
 				break
@@ -614,7 +617,8 @@ func (w *rsWorld) exec(line string) string {
 			select {
 			case <-done:
 			case <-time.After(10 * time.Second):
-				panic("harness: detection pass without a rewind did not finish")
+				w.fail("[C06] a detection pass in which nothing had to be rewound did not finish within 10 s")
+				panic(stopRun{})
 			}
 		} else {
 			// the passes of the subscribers that do not rewind are a few deletes; let the tracked lists settle
